@@ -91,6 +91,94 @@ let verdict_key (stage : int) (v : int) : string =
     | _ -> "accepted-unknown-verdict" in
   if stage = 1 && (v = 1 || v = 2 || v = 3) then base ^ "-in-account-proof" else base
 
+(* ---- one item = the 13 fields of a val line (also one step of a hist line) ---- *)
+type item = {
+  tag : string; kind : string; req : request; bh : byte list; oracle : string;
+  tbl : (int list * (byte list * node option)) list;         (* node bytes -> (keccak, decoded form) *)
+  atbl : (int list * (byte list * byte list)) list;           (* leaf value -> FullAccount result *)
+  codeb : byte list; codek : string;
+}
+
+let parse_item tag kind oracle blockhash addrhash path keyhash code codek acctproof mainproof tbl accts : item =
+  let aproof = List.map hexb (split_on ',' acctproof) and mproof = List.map hexb (split_on ',' mainproof) in
+  let entries = List.map (fun e -> match String.split_on_char '~' e with
+      | [h; d] -> (hexb h, d) | _ -> failwith "tbl entry") (split_on ';' tbl) in
+  let nodes = aproof @ mproof in
+  if List.length nodes <> List.length entries then failwith "tbl length";
+  let table = List.map2 (fun nb (h, d) -> (ub nb, (h, (if d = "E" then None else Some (parse_dump d))))) nodes entries in
+  let atable = List.map (fun e -> match String.split_on_char '~' e with
+      | [v; r; c] -> (ub (hexb v), (hexb r, hexb c)) | _ -> failwith "accts entry") (split_on ';' accts) in
+  let codeb = hexb code and bh = hexb blockhash in
+  let req = match kind with
+    | "atn" -> RAccountNode (hexb path, hexb keyhash, mproof, bh)
+    | "csn" -> RStorageNode (hexb addrhash, hexb path, hexb keyhash, mproof, aproof, bh)
+    | "cbc" -> RBytecode (hexb addrhash, hexb keyhash, codeb, aproof, bh)
+    | _ -> failwith "kind" in
+  { tag; kind; req; bh; oracle; tbl = table; atbl = atable; codeb; codek }
+
+(* the library functions as lookups over the tables of the given items (one item for a val line, all steps of a history) *)
+let oracles (items : item list) =
+  let tbl = List.concat_map (fun it -> it.tbl) items and atbl = List.concat_map (fun it -> it.atbl) items in
+  let codes = List.filter_map (fun it -> if it.kind = "cbc" then Some (ub it.codeb, hexb it.codek) else None) items in
+  let node_hash (x : byte list) : byte list =
+    match List.assoc_opt (ub x) tbl with
+    | Some (h, _) -> h
+    | None -> (match List.assoc_opt (ub x) codes with Some h -> h | None -> failwith "node_hash: not in table") in
+  let decode (x : byte list) : node res =
+    match List.assoc_opt (ub x) tbl with
+    | Some (_, Some nd) -> Ok nd
+    | Some (_, None) -> Err (Obj.magic (Util.n_of_int 20))
+    | None -> failwith "decode: not in table" in
+  let decode_account (x : byte list) : (byte list * byte list) res =
+    match List.assoc_opt (ub x) atbl with Some a -> Ok a | None -> Err (Obj.magic (Util.n_of_int 21)) in
+  (node_hash, decode, decode_account)
+
+(* the header source during the item's step: serves the scripted root for the item's block hash, fails otherwise *)
+let header_of (it : item) (x : byte list) : byte list res =
+  if it.oracle <> "!" && ub x = ub it.bh then Ok (hexb it.oracle) else Err (Obj.magic (Util.n_of_int 22))
+
+(* monitors: the property's predicates on the IMPLEMENTATION's verdict iv / Put observation ip ("-" = Put did not run) *)
+let item_monitors (node_hash, decode, decode_account) (it : item) (iv : string) (ip : string) (where : string) : string list =
+  let mons = ref [] in
+  let tag = it.tag ^ where in
+  let add k d = mons := (k ^ " " ^ d) :: !mons in
+  let header = header_of it and req = it.req in
+  List.iter (fun (_, (_, d)) -> match d with
+      | Some nd -> if not (wf_node nd && is_top nd) then add "decoder-output-not-wellformed" tag
+      | None -> ()) it.tbl;
+  let fixed_v = validate_content node_hash decode decode_account header req in
+  let orig_v = validate_content_orig node_hash decode decode_account header req in
+  let (stage, verdict) = content_verdict node_hash decode decode_account header req in
+  let stage = int_n stage and verdict = int_n verdict in
+  if iv = "ok" then begin
+    if verdict <> 0 then begin
+      (* the chain predicate of the theorem is false, yet the implementation accepted *)
+      let through_leaf = (match fixed_v with Err e -> int_n e = 12 | _ -> false) && (match orig_v with Ok () -> true | _ -> false) in
+      if through_leaf then add "accepted-proof-through-leaf-value" (Printf.sprintf "tag=%s stage=%d" tag stage)
+      else add (verdict_key stage verdict) (Printf.sprintf "tag=%s stage=%d verdict=%d" tag stage verdict)
+    end;
+    (match expected_stored req with
+     | Some e ->
+       if starts ip "ok:" then begin
+         if ip <> "ok:" ^ hexs e then add "stored-not-final-node" (Printf.sprintf "tag=%s stored=%s" tag (String.sub ip 0 (min 80 (String.length ip))));
+         (* C13_put_rechecks_hash on the implementation: stored code must hash to the key's code hash *)
+         (match req with
+          | RBytecode (_, ch, code, _, _) when not (bytes_eqb (node_hash code) ch) -> add "stored-code-not-hashing-to-key" (Printf.sprintf "tag=%s" tag)
+          | _ -> ())
+       end else if starts ip "panic" then add "put-panics-after-accept" (tag ^ " " ^ ip)
+       else begin
+         (* a bytecode item passes ValidateContent on the account's code hash alone; the code bytes are bound to the key by
+            Put (keccak(code) = key.CodeHash).  Validator-ok + Put-err is therefore a rejection, not an acceptance, exactly when
+            the code does not hash to the key.  For trie nodes Put repeats a check the validator already made. *)
+         let code_mismatch = (match req with RBytecode (_, ch, code, _, _) -> not (bytes_eqb (node_hash code) ch) | _ -> false) in
+         if not code_mismatch then add "accepted-but-not-stored" (tag ^ " " ^ ip)
+       end
+     | None -> add "accepted-empty-proof" tag)
+  end
+  else if starts iv "panic" then add (classify_panic "validator" iv) (Printf.sprintf "tag=%s %s" tag iv)
+  else if starts iv "err" && verdict = 0 then add "rejected-honest-proof" (Printf.sprintf "tag=%s" tag);
+  List.rev !mons
+
 let handle fields impl : string option * string list =
   match fields with
   | ["trv"; _node; dump; path] ->
@@ -127,82 +215,64 @@ let handle fields impl : string option * string list =
      (if contains impl "v:panic" then ["validator-panics-in-ssz-layer " ^ impl] else [])
      @ (if contains impl "v:ok" then ["accepted-undecodable-content " ^ impl] else []))
   | ["val"; tag; kind; oracle; blockhash; addrhash; path; keyhash; code; codek; acctproof; mainproof; tbl; accts] ->
-    let aproof = List.map hexb (split_on ',' acctproof) and mproof = List.map hexb (split_on ',' mainproof) in
-    let entries = List.map (fun e -> match String.split_on_char '~' e with
-        | [h; d] -> (hexb h, d) | _ -> failwith "tbl entry") (split_on ';' tbl) in
-    let nodes = aproof @ mproof in
-    if List.length nodes <> List.length entries then failwith "tbl length";
-    let table = List.map2 (fun nb (h, d) -> (ub nb, (h, (if d = "E" then None else Some (parse_dump d))))) nodes entries in
-    let codeb = hexb code in
-    let node_hash (x : byte list) : byte list =
-      match List.assoc_opt (ub x) table with
-      | Some (h, _) -> h
-      | None -> if kind = "cbc" && ub x = ub codeb then hexb codek else failwith "node_hash: not in table" in
-    let decode (x : byte list) : node res =
-      match List.assoc_opt (ub x) table with
-      | Some (_, Some nd) -> Ok nd
-      | Some (_, None) -> Err (Obj.magic (Util.n_of_int 20))
-      | None -> failwith "decode: not in table" in
-    let atable = List.map (fun e -> match String.split_on_char '~' e with
-        | [v; r; c] -> (ub (hexb v), (hexb r, hexb c)) | _ -> failwith "accts entry") (split_on ';' accts) in
-    let decode_account (x : byte list) : (byte list * byte list) res =
-      match List.assoc_opt (ub x) atable with Some a -> Ok a | None -> Err (Obj.magic (Util.n_of_int 21)) in
-    let bh = hexb blockhash in
-    let header (x : byte list) : byte list res =
-      if oracle <> "!" && ub x = ub bh then Ok (hexb oracle) else Err (Obj.magic (Util.n_of_int 22)) in
-    let req = match kind with
-      | "atn" -> RAccountNode (hexb path, hexb keyhash, mproof, bh)
-      | "csn" -> RStorageNode (hexb addrhash, hexb path, hexb keyhash, mproof, aproof, bh)
-      | "cbc" -> RBytecode (hexb addrhash, hexb keyhash, codeb, aproof, bh)
-      | _ -> failwith "kind" in
+    let it = parse_item tag kind oracle blockhash addrhash path keyhash code codek acctproof mainproof tbl accts in
+    let (node_hash, decode, decode_account) as orc = oracles [it] in
+    let header = header_of it in
     (* implementation observation *)
     let iv, ip = match String.split_on_char ' ' impl with
       | [v; p] when starts v "v:" && starts p "p:" -> (String.sub v 2 (String.length v - 2), String.sub p 2 (String.length p - 2))
       | _ -> failwith "impl observation" in
     (* model *)
-    let fixed_v = validate_content node_hash decode decode_account header req in
-    let orig_v = validate_content_orig node_hash decode decode_account header req in
-    let mv = match (if use_orig then orig_v else fixed_v) with
+    let mv = match (if use_orig then validate_content_orig node_hash decode decode_account header it.req
+                    else validate_content node_hash decode decode_account header it.req) with
       | Ok () -> "ok" | Err _ -> "err" | Panic -> if starts iv "panic" then iv else "panic" in
-    let mp = match put node_hash req with
+    let mp = match put node_hash it.req with
       | Ok s -> "ok:" ^ hexs s | Err _ -> "err" | Panic -> if starts ip "panic" then ip else "panic" in
-    let model = "v:" ^ mv ^ " p:" ^ mp in
-    (* monitors: the property's predicates on the IMPLEMENTATION's observations *)
-    let mons = ref [] in
-    let add k d = mons := (k ^ " " ^ d) :: !mons in
-    List.iter (fun (_, (_, d)) -> match d with
-        | Some nd -> if not (wf_node nd && is_top nd) then add "decoder-output-not-wellformed" tag
-        | None -> ()) table;
-    let (stage, verdict) = content_verdict node_hash decode decode_account header req in
-    let stage = int_n stage and verdict = int_n verdict in
-    if iv = "ok" then begin
-      if verdict <> 0 then begin
-        (* the chain predicate of the theorem is false, yet the implementation accepted *)
-        let through_leaf = (match fixed_v with Err e -> int_n e = 12 | _ -> false) && (match orig_v with Ok () -> true | _ -> false) in
-        if through_leaf then add "accepted-proof-through-leaf-value" (Printf.sprintf "tag=%s stage=%d" tag stage)
-        else add (verdict_key stage verdict) (Printf.sprintf "tag=%s stage=%d verdict=%d" tag stage verdict)
-      end;
-      (match expected_stored req with
-       | Some e ->
-         if starts ip "ok:" then begin
-           if ip <> "ok:" ^ hexs e then add "stored-not-final-node" (Printf.sprintf "tag=%s stored=%s" tag (String.sub ip 0 (min 80 (String.length ip))));
-           (* C13_put_rechecks_hash on the implementation: stored code must hash to the key's code hash *)
-           (match req with
-            | RBytecode (_, ch, code, _, _) when not (bytes_eqb (node_hash code) ch) -> add "stored-code-not-hashing-to-key" (Printf.sprintf "tag=%s" tag)
-            | _ -> ())
-         end else if starts ip "panic" then add "put-panics-after-accept" ip
-         else begin
-           (* a bytecode item passes ValidateContent on the account's code hash alone; the code bytes are bound to the key by
-              Put (keccak(code) = key.CodeHash).  Validator-ok + Put-err is therefore a rejection, not an acceptance, exactly when
-              the code does not hash to the key.  For trie nodes Put repeats a check the validator already made. *)
-           let code_mismatch = (match req with RBytecode (_, ch, code, _, _) -> not (bytes_eqb (node_hash code) ch) | _ -> false) in
-           if not code_mismatch then add "accepted-but-not-stored" ip
-         end
-       | None -> add "accepted-empty-proof" tag)
-    end
-    else if starts iv "panic" then add (classify_panic "validator" iv) (Printf.sprintf "tag=%s %s" tag iv)
-    else if starts iv "err" && verdict = 0 then add "rejected-honest-proof" (Printf.sprintf "tag=%s" tag);
-    (Some model, List.rev !mons)
+    (Some ("v:" ^ mv ^ " p:" ^ mp), item_monitors orc it iv ip "")
+  | ["hist"; _n; steps] ->
+    (* one validator instance and one storage through a sequence of items; the header source is scripted per step *)
+    let items = List.map (fun st -> match String.split_on_char '^' st with
+        | [tag; kind; oracle; blockhash; addrhash; path; keyhash; code; codek; acctproof; mainproof; tbl; accts; id] ->
+          (parse_item tag kind oracle blockhash addrhash path keyhash code codek acctproof mainproof tbl accts, hexb id)
+        | _ -> failwith "hist step") (String.split_on_char '@' steps) in
+    let (node_hash, decode, decode_account) as orc = oracles (List.map fst items) in
+    let evs = List.map (fun (it, id) -> { ev_header = header_of it; ev_id = id; ev_req = it.req }) items in
+    let ((_, store), outs) = run_history node_hash decode decode_account ((), []) evs in
+    (* implementation observations: v:<r>,p:<r>@...@S:<store> *)
+    let parts = String.split_on_char '@' impl in
+    let n = List.length items in
+    if List.length parts <> n + 1 then failwith "hist observation";
+    let iobs = List.filteri (fun i _ -> i < n) parts in
+    let split_obs o = match String.index_opt o ',' with
+      | Some i when starts o "v:" && String.length o > i + 2 && String.sub o (i + 1) 2 = "p:" ->
+        (String.sub o 2 (i - 2), String.sub o (i + 3) (String.length o - i - 3))
+      | _ -> failwith "hist step observation" in
+    let iobs = List.map split_obs iobs in
+    let mobs = List.map2 (fun (v, p) (iv, ip) ->
+        let mv = match v with Ok () -> "ok" | Err _ -> "err" | Panic -> if starts iv "panic" then iv else "panic" in
+        let mp = match p with
+          | None -> "-"
+          | Some (Ok s) -> "ok:" ^ hexs s | Some (Err _) -> "err" | Some Panic -> if starts ip "panic" then ip else "panic" in
+        "v:" ^ mv ^ ",p:" ^ mp) outs iobs in
+    (* final store: every id ever used, sorted, with the model's latest value *)
+    let ids = List.sort_uniq compare (List.map (fun (k, _) -> hexs k) store) in
+    let mstore = List.map (fun idh -> match store_get store (hexb idh) with Some v -> idh ^ "~" ^ hexs v | None -> idh ^ "~?") ids in
+    let mstore = match mstore with [] -> "." | l -> String.concat ";" l in
+    let model = String.concat "@" mobs ^ "@S:" ^ mstore in
+    (* per-step monitors, against the header answer of THAT step (C13_history_accept_iff) *)
+    let mons = List.concat (List.mapi (fun i ((it, _), (iv, ip)) ->
+        item_monitors orc it iv ip (Printf.sprintf "@step%d/%d" (i + 1) n)) (List.combine items iobs)) in
+    (* C13_history_store on the implementation: everything in the final store is the expected value of an accepted step *)
+    let istore = List.nth parts n in
+    let istore = String.sub istore 2 (String.length istore - 2) in
+    let smons = List.concat_map (fun e -> match String.split_on_char '~' e with
+        | [idh; vh] ->
+          let justified = List.exists2 (fun (it, id) (iv, ip) ->
+              hexs id = idh && iv = "ok" && (match expected_stored it.req with Some x -> hexs x = vh | None -> false)
+              && snd (content_verdict node_hash decode decode_account (header_of it) it.req) = v_OK) items iobs in
+          if justified then [] else ["history-store-holds-unjustified-entry id=" ^ idh]
+        | _ -> ["history-store-unparsable " ^ e]) (split_on ';' istore) in
+    (Some model, mons @ smons)
   | _ -> (Some "driver: unknown line", [])
 
 (* Util.norm collapses observables starting with "err"; ours start with "v:" so the comparison is exact *)
